@@ -2,7 +2,7 @@ import sys; sys.path.insert(0, '/verif/tools')
 from ann import Overlay, ghost
 o = Overlay('/verif/contracts/textdiff.rs')
 # keep the hand-written header block (everything before the first item) and redo the ghost lines of the items
-first = o.find('//@@ item src/text/mod.rs :: ^enum Deadline', code_only=False)
+first = o.find('//@@ item src/types.rs :: ^impl Default for Algorithm', code_only=False)
 head, rest = o.lines[:first], o.lines[first:]
 o.lines = [l for l in rest if not l.lstrip().startswith('/*@*/')]
 
@@ -23,21 +23,6 @@ impl TextDiffConfig {
     pub closed spec fn nl(&self) -> Option<bool> { self.newline_terminated }
     /// the absolute deadline configured with `deadline(..)` (None: no deadline, or a relative timeout)
     pub closed spec fn dl_abs(&self) -> Option<Instant> { match self.deadline { Some(Deadline::Absolute(i)) => Some(i), _ => None } }
-}
-''')
-
-# ---- TextDiff ----
-i = o.find("pub struct TextDiff<'old, 'new, 'bufs, T: DiffableStr + ?Sized>")
-o.lines[i:i] = ghost('#[verifier::reject_recursive_types(T)]')
-j = o.find('}', i)
-o.lines[j + 1:j + 1] = ghost('''
-impl<'old, 'new, 'bufs, T: DiffableStr + ?Sized> TextDiff<'old, 'new, 'bufs, T> {
-    /// the two token slices the diff was made of, and what it stores
-    pub closed spec fn old_toks(&self) -> &[&'old T] { cow_ref(&self.old) }
-    pub closed spec fn new_toks(&self) -> &[&'new T] { cow_ref(&self.new) }
-    pub closed spec fn stored_ops(&self) -> Seq<DiffOp> { self.ops@ }
-    pub closed spec fn nl(&self) -> bool { self.newline_terminated }
-    pub closed spec fn alg(&self) -> Algorithm { self.algorithm }
 }
 ''')
 
@@ -138,6 +123,7 @@ CONTRACT = '''
         // C02: the stored ops are a valid, normal-form op list over the two token slices - below and above the size
         // at which the items are mapped to integers
         cap_post(OLD, 0..OLD@.len() as usize, NEW, 0..NEW@.len() as usize, res.stored_ops(), false),
+        res.wf(),
 '''
 o.before('{', CONTRACT.replace('OLD', 'old').replace('NEW', 'new').replace('NLT', 'false'), start=i)
 k = o.find('{', i)
@@ -179,12 +165,5 @@ for nm, post in (('pub fn algorithm(&mut self, alg: Algorithm)', 'res.alg() == a
     i = o.find(nm, ic)
     o.before('{', '    ensures %s,' % post, start=i)
 
-# ---- TextDiff getters ----
-it = o.find("impl<'old, 'new, 'bufs, T: DiffableStr + ?Sized + 'old + 'new> TextDiff<'old, 'new, 'bufs, T> {")
-for nm, post in (('pub fn algorithm(&self)', 'res == self.alg()'), ('pub fn newline_terminated(&self)', 'res == self.nl()'),
-                 ('pub fn old_slices(&self)', 'res == self.old_toks()'), ('pub fn new_slices(&self)', 'res == self.new_toks()'),
-                 ('pub fn ops(&self)', 'res@ == self.stored_ops()')):
-    i = o.find(nm, it)
-    o.before('{', '    ensures %s,' % post, start=i)
 o.lines = head + o.lines
 o.save()
